@@ -140,8 +140,9 @@ def effective_kids(U: Universe, s: S) -> dict[str, Any]:
     return out
 
 
-def build(U: Universe, s: S, memo: dict[int, Any] | None = None, origin_fn: Callable[[S], Any] | None = None) -> Any:
-    """Bottom-up construction of the real tree. memo: id(spec) -> node."""
+def build(U: Universe, s: S, memo: dict[int, Any] | None = None, origin_fn: Callable[[S], Any] | None = None, after: Callable[[S, Any], None] | None = None) -> Any:
+    """Bottom-up construction of the real tree. memo: id(spec) -> node.
+    after(spec, node) is called right after each node is constructed."""
     if memo is None:
         memo = {}
     if id(s) in memo:
@@ -154,15 +155,17 @@ def build(U: Universe, s: S, memo: dict[int, Any] | None = None, origin_fn: Call
         if v is None:
             kw[f.name] = None
         elif isinstance(v, tuple):
-            kw[f.name] = tuple(build(U, c, memo, origin_fn) for c in v)
+            kw[f.name] = tuple(build(U, c, memo, origin_fn, after) for c in v)
         else:
-            kw[f.name] = build(U, v, memo, origin_fn)
+            kw[f.name] = build(U, v, memo, origin_fn, after)
     for f in U.prop_fields(s.cls):
         if f.name in s.props and f.init:
             kw[f.name] = s.props[f.name]
     kw["origin"] = origin_fn(s) if origin_fn else O.build_origin(s.origin)
     node = U.cls[s.cls](**kw)
     memo[id(s)] = node
+    if after is not None:
+        after(s, node)
     return node
 
 
